@@ -328,6 +328,12 @@ type c04Cfg struct {
 	Chunk     int
 	Scribble  bool
 	Perturb   func() // nil = none
+	// Hold: the fault is held back until quiescence: a fault hook blocks where it would fail, a
+	// cancellation / endpoint failure is postponed; at the first quiescence it is released.
+	Hold bool
+	// Stall >= 0 (with Hold): the receiver-side callbacks of that entry block until the same moment
+	// and then return normally (a diff that is slower than the network).
+	Stall int
 }
 
 type c04Res struct {
@@ -336,6 +342,7 @@ type c04Res struct {
 	Hung             bool
 	TimedOut         bool
 	Quiesced         bool
+	HeldReleased     bool
 	Fired            bool
 	Leaks            int
 	Log              []c04Pkt
@@ -418,15 +425,39 @@ func c04Run(cfg c04Cfg) (res c04Res) {
 	fpath, fnode := c04EntryPath(cfg.View, cfg.FA)
 	expected := c04Expected(cfg.View)
 	hashErrPath, notifyErrPath := "", ""
+	holdGate := make(chan struct{})
+	waitHold := func() {
+		if cfg.Hold {
+			select {
+			case <-holdGate:
+			case <-pair.down:
+			}
+		}
+	}
+	stallPath := ""
+	if cfg.Hold && cfg.Stall >= 0 {
+		stallPath, _ = c04EntryPath(cfg.View, cfg.Stall)
+	}
+	var fireHeld func() // postponed cancellation / endpoint failure
 	switch cfg.FaultKind {
 	case c04FBreak:
-		pair.E[cfg.FA&1].breakAt = int64(cfg.FB)
+		if cfg.Hold {
+			e := pair.E[cfg.FA&1]
+			fireHeld = e.brk
+		} else {
+			pair.E[cfg.FA&1].breakAt = int64(cfg.FB)
+		}
 	case c04FCancel:
 		cancel := cancelS
 		if cfg.FA&1 == 1 {
 			cancel = cancelR
 		}
-		if cfg.FB == 0 {
+		if cfg.Hold {
+			fireHeld = func() {
+				atomic.StoreInt32(&fired, 1)
+				cancel()
+			}
+		} else if cfg.FB == 0 {
 			atomic.StoreInt32(&fired, 1)
 			cancel()
 		} else {
@@ -442,6 +473,7 @@ func c04Run(cfg c04Cfg) (res c04Res) {
 		a := cfg.FA
 		mem.WalkHook = func(idx int, p string) error {
 			if idx == a {
+				waitHold()
 				atomic.StoreInt32(&fired, 1)
 				return c04InjErr
 			}
@@ -458,6 +490,7 @@ func c04Run(cfg c04Cfg) (res c04Res) {
 					cfg.Perturb()
 				}
 				if p == fpath && off >= thr {
+					waitHold()
 					atomic.StoreInt32(&fired, 1)
 					return c04InjErr
 				}
@@ -468,6 +501,7 @@ func c04Run(cfg c04Cfg) (res c04Res) {
 		if fnode != nil {
 			mem.OpenHook = func(p string) error {
 				if p == fpath {
+					waitHold()
 					atomic.StoreInt32(&fired, 1)
 					return c04InjErr
 				}
@@ -493,8 +527,12 @@ func c04Run(cfg c04Cfg) (res c04Res) {
 				cfg.Perturb()
 			}
 			if hashErrPath != "" && st.Path == hashErrPath {
+				waitHold()
 				atomic.StoreInt32(&fired, 1)
 				return nil, c04InjErr
+			}
+			if stallPath != "" && st.Path == stallPath {
+				waitHold()
 			}
 			h := &recHash{}
 			h.Write(hdrFor(st))
@@ -505,8 +543,12 @@ func c04Run(cfg c04Cfg) (res c04Res) {
 				cfg.Perturb()
 			}
 			if notifyErrPath != "" && p == notifyErrPath {
+				waitHold()
 				atomic.StoreInt32(&fired, 1)
 				return c04InjErr
+			}
+			if stallPath != "" && p == stallPath {
+				waitHold()
 			}
 			n := c04Notif{Kind: int(kind), Path: p}
 			if fi != nil {
@@ -534,8 +576,11 @@ func c04Run(cfg c04Cfg) (res c04Res) {
 	start := time.Now()
 	var tornAt time.Time
 	torn := false
+	lastAct := int64(-1)
+	quietRuns := 0
 	tear := func() {
 		if !torn {
+			quietRuns, lastAct = 0, -1
 			torn = true
 			tornAt = time.Now()
 			pair.TearDown()
@@ -543,8 +588,7 @@ func c04Run(cfg c04Cfg) (res c04Res) {
 	}
 	tick := time.NewTicker(2 * time.Millisecond)
 	defer tick.Stop()
-	lastAct := int64(-1)
-	quietRuns := 0
+	released := false
 loop:
 	for pending > 0 {
 		select {
@@ -565,7 +609,26 @@ loop:
 			}
 		case <-tick.C:
 			if torn {
+				// hang detector: 10 s after tear-down — or earlier, as soon as it is certain that
+				// nothing can move any more: every goroutine of the two calls has been parked on a
+				// channel / mutex / wait group, with no stream activity, for 40 consecutive samples
+				// (after tear-down no event is left that could wake one of them)
 				if time.Since(tornAt) > 10*time.Second {
+					res.Hung = true
+					break loop
+				}
+				if len(sdone)+len(rdone) > 0 {
+					continue
+				}
+				act := atomic.LoadInt64(&pair.activity)
+				total, blocked := c04Census()
+				if total-base >= pending && total == blocked && act == lastAct {
+					quietRuns++
+				} else {
+					quietRuns = 0
+				}
+				lastAct = act
+				if quietRuns >= 40 {
 					res.Hung = true
 					break loop
 				}
@@ -589,6 +652,17 @@ loop:
 			lastAct = act
 			if quietRuns >= 3 {
 				// quiescence: every goroutine of both calls is parked and nothing moved
+				if cfg.Hold && !released {
+					// release what was held back: the postponed event first, then the blocked hooks
+					released = true
+					res.HeldReleased = true
+					if fireHeld != nil {
+						fireHeld()
+					}
+					close(holdGate)
+					quietRuns, lastAct = 0, -1
+					continue
+				}
 				res.Quiesced = true
 				tear()
 			}
@@ -709,7 +783,12 @@ func c04CountReq(log []c04Pkt) int {
 
 var c04Stats = map[string]int{}
 
-// kind 0401.  input: (view prior (fault a b) fanout cap chunk)
+// kind 0401.  input: (view prior (fault a b [hold [stall]]) fanout cap chunk)
+//
+//	hold != 0: the fault is held back until no goroutine of either call can move (its hook blocks
+//	where it would fail; a cancellation / endpoint failure is postponed, b is ignored), then released;
+//	stall = 1 + index of an entry whose ContentHasher / NotifyHashed calls block until that moment
+//	and then return normally (0 = none)
 //
 //	fault 0 none | 1 endpoint a (0 sender's, 1 receiver's) fails from its b-th operation on |
 //	2 context of a (0 Send, 1 Receive) cancelled when b packets have crossed (0: before the start) |
@@ -741,7 +820,13 @@ func run0401(in Sx) (out Sx) {
 		panic("materialize prior: " + err.Error())
 	}
 	cfg := c04Cfg{View: view, Dest: dest, FaultKind: f.L[0].Int(), FA: f.L[1].Int(), FB: f.L[2].Int(),
-		Fanout: in.L[3].Int(), Cap: in.L[4].Int(), Chunk: in.L[5].Int()}
+		Fanout: in.L[3].Int(), Cap: in.L[4].Int(), Chunk: in.L[5].Int(), Stall: -1}
+	if len(f.L) > 3 {
+		cfg.Hold = f.L[3].IsTrue()
+	}
+	if len(f.L) > 4 {
+		cfg.Stall = f.L[4].Int() - 1
+	}
 	res := c04Run(cfg)
 	var diffs []string
 	falseSucc := false
@@ -750,7 +835,7 @@ func run0401(in Sx) (out Sx) {
 		diffs = c04DestDiff(view, dest)
 		falseSucc = res.Recv == 0 && len(diffs) > 0
 		// a later fault-free transfer into whatever was left behind must converge
-		r2 := c04Run(c04Cfg{View: view, Dest: dest, Cap: 4, Chunk: cfg.Chunk})
+		r2 := c04Run(c04Cfg{View: view, Dest: dest, Cap: 4, Chunk: cfg.Chunk, Stall: -1})
 		followup = 1
 		if r2.Send == 0 && r2.Recv == 0 && !r2.Hung && len(c04DestDiff(view, dest)) == 0 {
 			followup = 0
@@ -774,6 +859,9 @@ func run0401(in Sx) (out Sx) {
 	}
 	if res.TimedOut {
 		c04Stats["never_quiescent_timeout"]++
+	}
+	if res.HeldReleased {
+		c04Stats["held_fault_released_on_quiescence"]++
 	}
 	return L(NI(res.Send), NI(res.Recv), Bool(res.Hung), NI(res.Leaks), Bool(falseSucc), L(ds...), NI(followup),
 		Bool(c04HasErr(res.Log, 0)), Bool(c04HasErr(res.Log, 1)), Bool(res.Fired), Bool(nreq > 132))
@@ -931,6 +1019,60 @@ func genC04(g *Gen) {
 		}
 		emit(c04Case(view, prior, kind, a, b, 0, Pick(r, []int{0, 0, 1, 2, 8, 64}), chunk), c04FaultNames[kind])
 	}
+	// (c) long listings: the entries that follow a synchronously handled entry pile up in the
+	// receiver's walker channel (128) and diff channel (128) while the diff is held on that entry
+	// (listing sizes across the thresholds); the fault is released when everything is parked
+	thresholds := []int{0, 1, 100, 127, 128, 129, 200, 255, 256, 257, 258, 259, 260, 300, 400, 600}
+	for i, nl := 0, g.Vol(40, 600); i < nl; i++ {
+		after := Pick(r, thresholds)
+		if r.Chance(15) {
+			after = r.Intn(640)
+		}
+		pos := r.Intn(3)
+		var view, prior []*MNode
+		for k := 0; k < pos; k++ {
+			view = append(view, c04File(fmt.Sprintf("a%03d", k), r.Intn(4), r.U64(), c04Mt))
+		}
+		var pivot *MNode
+		switch r.Intn(10) {
+		case 0, 1:
+			pivot = c04Link("b-pivot", "nowhere", c04Mt)
+		case 2:
+			pivot = c04File("b-pivot", 1+r.Intn(3), r.U64(), c04Mt)
+		default:
+			pivot = c04Dir("b-pivot", c04Mt)
+		}
+		view = append(view, pivot)
+		samePrior := r.Chance(50)
+		for k := 0; k < after; k++ {
+			f := c04File(fmt.Sprintf("c%04d", k), r.Intn(3), r.U64(), c04Mt+int64(k))
+			view = append(view, f)
+			if samePrior {
+				prior = append(prior, c04Clone(f))
+			}
+		}
+		kind, a, b, hold, stall := c04FNotify, pos, 0, 1, 0
+		switch r.Intn(10) {
+		case 0, 1:
+			kind = c04FHash
+		case 2:
+			kind, a, stall = c04FCancel, 1, pos+1 // receiver's context, diff stalled on the pivot
+		case 3:
+			kind, a, stall = c04FBreak, 1, pos+1
+		case 4:
+			kind, a, stall = c04FCancel, 0, pos+1
+		case 5:
+			kind = c04FWalk
+		case 6:
+			hold = 0 // not held: whenever the callback runs
+		}
+		in := L(ViewSx(view), ViewSx(prior), L(NI(kind), NI(a), NI(b), NI(hold), NI(stall)), NI(0), Pick(r, []Sx{NI(0), NI(1), NI(8), NI(64)}), NI(1+r.Intn(3)))
+		cls := "long-listing-" + c04FaultNames[kind]
+		if hold == 1 {
+			cls += "-held"
+		}
+		emit(in, cls)
+	}
 	for k, v := range c04Stats {
 		g.Note(k, v)
 	}
@@ -1023,7 +1165,7 @@ func run0801(in Sx) (out Sx) {
 		if err := Materialize(prior, dest); err != nil {
 			panic("materialize prior: " + err.Error())
 		}
-		res := c04Run(c04Cfg{View: view, Dest: dest, Cap: capacity, Chunk: chunk, Scribble: true, Perturb: perturb})
+		res := c04Run(c04Cfg{View: view, Dest: dest, Cap: capacity, Chunk: chunk, Scribble: true, Perturb: perturb, Stall: -1})
 		eq := !res.Hung && len(c04DestDiff(view, dest)) == 0
 		dg := ""
 		if !res.Hung {
